@@ -25,7 +25,7 @@ CLAIMED = {
          "Trusted: go/ssa; confidentiality of the caller's AEAD; a key whose KeyMaterialType label contradicts its type URL is left to the per-type parsers (not decided here).",
          "DESIGN.md §4 C13"),
  "C05": ("census of every PrimitiveFromKey site and wrapper method; value-identity and dominance rules for entry/keyID/prefix pairing, primary selection, candidate selection and logged key IDs",
-         "Decides the selection rule of C05 structurally for all 16 factory sites and the wrappers they build: primitives come only from Enabled entries (iterator yield dominated by KeyStatus()==Enabled over 0..Len()-1) or Handle.Primary(); key ID, output prefix, adapter prefix and map key stored with a primitive are computed from that same entry; the primary slot is assigned only under entry.IsPrimary(); accepting operations are tried only on candidates returned by PrimitivesMatchingPrefix(input) whose lookup uses exactly the 5 leading bytes under a length guard plus the prefix-less bucket; every logged key ID is read from the pair whose operation succeeded. Behaviour of the wrapped primitives and rotation histories are not decided (C11 covers the manager).",
+         "Decides the selection rule of C05 structurally for all 16 factory sites and the wrappers they build: primitives come only from Enabled entries (iterator yield dominated by KeyStatus()==Enabled over 0..Len()-1) or Handle.Primary(); key ID, output prefix, adapter prefix and map key stored with a primitive are computed from that same entry; the primary slot is assigned only under entry.IsPrimary(); accepting operations are tried only on candidates returned by PrimitivesMatchingPrefix(input) whose lookup uses exactly the 5 leading bytes under a length guard plus the prefix-less bucket; every logged key ID is read from the pair whose operation succeeded. No key ID is compared with the constant 0 (0 is a legal ID, not a sentinel). Behaviour of the wrapped primitives and rotation histories are not decided (C11 covers the manager).",
          "Trusted: go/ssa incl. range-over-func lowering; idioms recognised are listed in checker/rules/c05.go.",
          "DESIGN.md §4 C05"),
  "C02": ("must-pass-through (dominance) of authentication facts computed by fixpoint over the call graph; exact-prefix guards; input tiling; linear-arithmetic in-bounds proofs of every input-derived slice/index",
@@ -37,7 +37,7 @@ CLAIMED = {
          "Trusted: go/ssa; stdlib verification calls implement their standards; curve names of crypto/elliptic.",
          "DESIGN.md §4 C03"),
  "C04": ("as C02 for tink.MAC, plus sibling-computation identity (VerifyMAC compares with the same resolved computation ComputeMAC uses), full-length comparison shape, constant-folded parameter validators at their boundaries",
-         "Decides structural necessary conditions of C04: acceptance only under a constant-time full-length comparison between the caller's whole tag and a value from the sibling ComputeMAC path on the same key; exact prefix; no ignored trailing tag bytes; LEGACY suffix condition agreement; validators accept exactly key>=16 / 10<=tag<=digest (HMAC, five hashes) and key==32 / 10<=tag<=16 (CMAC) — evaluated by constant propagation, and constructors pass through them. RFC 2104/4493 value equality is not decided.",
+         "Decides structural necessary conditions of C04: acceptance only under a constant-time full-length comparison between the caller's whole tag and a value from the sibling ComputeMAC path on the same key; exact prefix; no ignored trailing tag bytes; LEGACY suffix condition agreement; validators accept exactly key>=16 / 10<=tag<=digest (HMAC, five hashes) and key==32 / 10<=tag<=16 (CMAC) — evaluated by constant propagation, and constructors pass through them. the caller's tag takes part in the comparison up to its last byte (a slice with an upper bound only where that bound is the tag's length). RFC 2104/4493 value equality is not decided.",
          "Trusted: go/ssa; hmac.Equal / ConstantTimeCompare semantics.",
          "DESIGN.md §4 C04"),
  "C20": ("randomness provenance: symbolic region inclusion of every nonce/IV argument in a dominating crypto/rand fill (linear prover), no intervening write (alias analysis), census of readers/creators/encapsulations",
@@ -49,19 +49,19 @@ CLAIMED = {
          "Trusted: go/ssa; constant propagation over pure validator functions; guard idioms of Validate.",
          "DESIGN.md §4 C14"),
  "C09": ("dominance/order and value-identity rule for VerifiedJWT construction; constant folding of validateHeader over its 64-row truth table and of validateFieldPresence; normalised comparison guards of validateTimestamps; census of clock reads, base64 alphabets and kid encoders; type-level JWK export arms",
-         "Decides structural clauses of the JWT accept decision: a VerifiedJWT exists only after signature/MAC verification of the content, header validation of that same content and Validator.Validate of that same RawJWT, in that order; validateHeader's decision equals the rule (alg equal, no crit, kid rules) on all 64 input combinations; the presence matrix on all 8; the three timestamp rejections have exactly the stated comparison direction and skew sign with 'now' sampled per call; skew <= 10 min; base64url only; every key-ID kid is base64url of the 4-byte big-endian ID on all three sides; JWK export handles only public types and filters by Enabled. JSON/base64 decoding and claim round trips are not decided.",
+         "Decides structural clauses of the JWT accept decision: a VerifiedJWT exists only after signature/MAC verification of the content, header validation of that same content and Validator.Validate of that same RawJWT, in that order; validateHeader's decision equals the rule (alg equal, no crit, kid rules) on all 64 input combinations; the presence matrix on all 8; the three timestamp rejections have exactly the stated comparison direction and skew sign with 'now' sampled per call; skew <= 10 min; base64url only; every key-ID kid is base64url of the 4-byte big-endian ID on all three sides; JWK export handles only public types and filters by Enabled; the presence accessors of RawJWT decide presence, not content. JSON/base64 decoding and claim round trips are not decided.",
          "Trusted: go/ssa; structpb accessors; time.Time.After/Add semantics.",
          "DESIGN.md §4 C09"),
  "C07": ("authentication must-pass-through for segment decrypters; dominance of the decryption verdict over every copy to the caller; error-discipline census of underlying I/O calls; nonce-input value rules and counter-increment path rules; CFG path rule for the keyset-level retry reader",
-         "Decides the structural clauses of C07 (NOT chunking independence, which quantifies over call histories): segment decrypters succeed only under a passed tag check for every segment length; Reader.Read releases only authenticated plaintext; no underlying I/O error is dropped (16 call sites); segment nonces are prefix||be32(counter)||last with the 2^32-1 limit, own counters incremented on every emitting path, last=false/true/at-EOF; Write after Close fails and Close is idempotent; the keyset-level reader rewinds before each next candidate and fails when none matches.",
+         "Decides the structural clauses of C07 (NOT chunking independence, which quantifies over call histories): the stream writer emits its whole buffer (segments are the internal buffer from offset 0, or caller memory only where the buffer is known empty); no Read on an underlying reader has its count discarded; the replaying wrapper of the keyset-level reader records everything it reads on every return path; segment decrypters succeed only under a passed tag check for every segment length; Reader.Read releases only authenticated plaintext; no underlying I/O error is dropped (16 call sites); segment nonces are prefix||be32(counter)||last with the 2^32-1 limit, own counters incremented on every emitting path, last=false/true/at-EOF; Write after Close fails and Close is idempotent; the keyset-level reader rewinds before each next candidate and fails when none matches.",
          "Trusted: go/ssa; stdlib Open/hmac.Equal; io.ReadFull EOF conventions.",
          "DESIGN.md §4 C07"),
  "C12": ("constant folding of every enum table pair (serialize∘parse inverse on all enum constants); shape rules for the keyset<->entries loops; argument-flow rules for ID requirements, type URL constants, optional sub-message presence; constant-field census",
-         "Decides the structural conditions C12 rests on: for every pair of enum table functions A->(B,error)/B->(A,error) (found by type in 30+ packages) parse(serialize(a))=a on every constant and unknown values are errors; keyset<->entries conversions and Public() map every entry in a complete same-index loop with the same ID/status/primary (RAW => ID requirement 0); parsers hand keySerialization.IDRequirement() on and serializers hand key.IDRequirement() to NewKeySerialization (or insist on RAW); type URLs are the package constants on both sides; optional custom kid presence by nil test; no serializer writes a constant into a field the parser reads back. Byte-identical re-serialization and Equal semantics are not decided.",
+         "Decides the structural conditions C12 rests on: for every pair of enum table functions A->(B,error)/B->(A,error) (found by type in 30+ packages) parse(serialize(a))=a on every constant and unknown values are errors; keyset<->entries conversions and Public() map every entry in a complete same-index loop with the same ID/status/primary (RAW => ID requirement 0); parsers hand keySerialization.IDRequirement() on and serializers hand key.IDRequirement() to NewKeySerialization (or insist on RAW); type URLs are the package constants on both sides; optional custom kid presence by nil test; no serializer writes a constant into a field the parser reads back, none copies a proto field from a differently named field of another message, no key ID is compared with 0, and a constructor whose parser canonicalises a big integer stores the canonical form. Byte-identical re-serialization and Equal semantics are not decided.",
          "Trusted: go/ssa; constant propagation over pure table functions; protobuf library.",
          "DESIGN.md §4 C12"),
  "C06": ("accept-side rules (auth fixpoint, prefix, tiling, bounds) for HybridDecrypt; literal tables vs transcribed RFC 9180/IANA values; constant folding of hash->size and enum->string tables (digest sizes, injectivity); inter-procedural argument-flow of contextInfo to the key schedule",
-         "Decides structural clauses of C06 (NOT byte-level interoperability): plaintext only under AEAD-open/DEM-decrypt success, exact prefix, in-bounds slicing of the encapsulated key/header; KEM/KDF/AEAD ids, version label, kemLengths and suite-id composition equal RFC 9180 §7/IANA; every hash->size table gives the standard digest sizes; enum->name tables of the hybrid packages are injective; contextInfo of every Encrypt/Decrypt reaches the info_hash labeled extract (HPKE) or the HKDF info argument (ECIES).",
+         "Decides structural clauses of C06 (NOT byte-level interoperability): plaintext only under AEAD-open/DEM-decrypt success, exact prefix, in-bounds slicing of the encapsulated key/header; KEM/KDF/AEAD ids, version label, kemLengths and suite-id composition equal RFC 9180 §7/IANA; every hash->size table gives the standard digest sizes; enum->name tables of the hybrid packages are injective; contextInfo of every Encrypt/Decrypt reaches the info_hash labeled extract (HPKE) or the HKDF info argument (ECIES); the KEM/KDF/AEAD factories, folded on every RFC 9180 identifier, build an object carrying that identifier and the hash / key length RFC 9180 assigns to it.",
          "Trusted: go/ssa; the transcribed standard tables in checker/rules/c06.go; stdlib AEAD Open.",
          "DESIGN.md §4 C06"),
  "C08": ("accept-side rules for DeterministicAEAD incl. recognition of the OR-of-XORs comparison loop with a full-length bound; constant folding of the KWP size guards at every boundary and of wrappingSize over its whole domain; dominance of the three KWP integrity facts",
